@@ -189,6 +189,11 @@ pub struct KeyGen {
     /// every entry of the forest expires at one of the three instants (mass expiry: the whole
     /// tree is gone after the landing, the arena keeps its high-water mark)
     pub forest_short_only: bool,
+    /// "pulse" plan: short-lived entries only - one to three inserts that expire at the next
+    /// tick or the one after, the tick, one operation that meets them expired - so that the
+    /// tree runs empty through lazy expiry (never through clear) over and over again
+    pub pulse: bool,
+    pub pulse_phase: u8,
     /// percent of the jumps that go (nearly) to the end of the time line
     pub far_jump_pct: u64,
     /// C12: make sure the run contains a clear (at this generated step)
@@ -219,6 +224,8 @@ pub struct KeyWorld {
     next_id: u32,
     peak: Vec<usize>,
     cleared_once: bool,
+    /// entries physically stored in the first collection at the last structural check (reach only)
+    last_n: usize,
     pub gen: KeyGen,
 }
 
@@ -250,7 +257,7 @@ impl KeyWorld {
             Some(r) => Self::draw_gen(&cfg, r),
             None => Self::default_gen(),
         };
-        KeyWorld { now: cfg.t0, cfg, colls, twins: (0..n).map(|_| None).collect(), names, model: BTreeMap::new(), next_id: 1, peak: vec![0; n], cleared_once: false, gen }
+        KeyWorld { now: cfg.t0, cfg, colls, twins: (0..n).map(|_| None).collect(), names, model: BTreeMap::new(), next_id: 1, peak: vec![0; n], cleared_once: false, last_n: 0, gen }
     }
 
     fn default_gen() -> KeyGen {
@@ -274,6 +281,8 @@ impl KeyWorld {
             forest: 0,
             forest_burst: 0,
             forest_short_only: false,
+            pulse: false,
+            pulse_phase: 0,
             far_jump_pct: 3,
             forced_clear_at: None,
             generated: 0,
@@ -340,6 +349,12 @@ impl KeyWorld {
         if r.chance(1, 16) {
             g.horizon_w = [0, 0, 0, 0, 1, 0];
             g.far_jump_pct = 20;
+        }
+        // drained again and again by lazy expiry (every tenth run; every fourth of the runs that
+        // look at the arena or at the export's allocation)
+        if g.forest == 0 && (r.chance(1, 10) || (cfg.has(O_CAP | O_ARENA) && r.chance(1, 4))) {
+            g.pulse = true;
+            g.fill_target = None;
         }
         if cfg.has(O_TWIN) {
             g.forced_clear_at = Some(r.below(12) as usize);
@@ -608,6 +623,12 @@ impl KeyWorld {
                     ctx.stats.shapes.insert((info.n as u32, info.shape_hash));
                 }
                 ctx.mix(info.shape_hash);
+                if ci == 0 {
+                    if info.n == 0 && self.last_n > 0 && opkind != "KClear" {
+                        ctx.stats.bump("reach.tree_ran_empty_through_lazy_expiry");
+                    }
+                    self.last_n = info.n;
+                }
                 if want_arena {
                     if let Err(m) = snap::check_arena(&s, &info) {
                         return Err(invariant("arena", name, opkind, &tag_of(&m), m));
@@ -1382,6 +1403,45 @@ impl World for KeyWorld {
                 self.gen.events.clear();
                 let restart = if r.chance(1, 3) && self.now > 0 { r.range(0, self.now as i64 - 1) as i32 } else { -1 };
                 return Op::KClear { restart };
+            }
+        }
+        if self.gen.pulse {
+            // phase 0..k: inserts; then the tick; then one operation at the new instant
+            let ph = self.gen.pulse_phase;
+            self.gen.pulse_phase = ph.wrapping_add(1);
+            let inserts = 1 + (self.gen.generated % 3) as u8;
+            if ph < inserts {
+                for _ in 0..6 {
+                    let k = self.pick_key(r);
+                    let exp = self.now.saturating_add(1 + r.below(2) as i32);
+                    let op = Op::KIns { k, exp };
+                    if self.legal(&op) {
+                        return op;
+                    }
+                }
+            } else if ph == inserts {
+                return Op::Tick { dt: 2 };
+            } else {
+                self.gen.pulse_phase = 0;
+                if r.chance(1, 40) {
+                    // now and then leave the plan for good (the rest of the run is ordinary)
+                    self.gen.pulse = false;
+                }
+                match r.below(4) {
+                    0 => {} // the next cycle's first insert meets the expired entries
+                    1 => return self.gen_query(r, W_LEQ),
+                    2 => return self.gen_query(r, W_LESS),
+                    _ => return self.gen_query(r, if self.gen.w[W_GET] > 0 { W_GET } else { W_LEQBY }),
+                }
+                self.gen.pulse_phase = 1;
+                for _ in 0..6 {
+                    let k = self.pick_key(r);
+                    let exp = self.now.saturating_add(1 + r.below(2) as i32);
+                    let op = Op::KIns { k, exp };
+                    if self.legal(&op) {
+                        return op;
+                    }
+                }
             }
         }
         if self.gen.forest == 2 {
